@@ -450,7 +450,7 @@ impl Property for C14 {
         ]
     }
     fn cases(&self, tier: Tier) -> usize {
-        tier.pick(20000, 200_000)
+        tier.pick(60000, 2_000_000)
     }
     fn strategy(&self, tier: Tier) -> BoxedStrategy<Case> {
         strategy(tier.pick(5, 6))
